@@ -372,7 +372,13 @@ def slotOf {α} (s : Store α) (k : Bytes) : Slot :=
 structure Typed where
   addr : Bool
   val : Nat
+  /-- `attr_isset`: false once `clear_attr` has run on the leaf (it stays allocated: it is still
+  found by `lookup_dir_attr` / `create_attr_path`, but has no value and is not listed) -/
+  set : Bool := true
   deriving DecidableEq, Repr, Inhabited
+
+/-- the value a typed leaf shows: none for an unset leaf -/
+def Typed.shown (t : Typed) : Option (Bool × Nat) := if t.set then some (t.addr, t.val) else none
 
 structure Ctx where
   page : Page := {}
@@ -390,7 +396,7 @@ def typeNames : List String := ["LENGTH", "NUMBER", "OFFSET", "SIZE", "SYMBOL"]
 
 def addInst (c : Ctx) (d : String) : Ctx := if c.inst.contains d then c else { c with inst := d :: c.inst }
 
-/-- the `TYPE(sym)` part of `lines_post_hook` -/
+/-- the `TYPE(sym)` part of `lines_post_hook` (`parsed_line_hook`) -/
 def typedPost (c : Ctx) (key val : Bytes) : Out Ctx :=
   let ty := key.takeWhile (· != 40)
   let afterParen := key.dropWhile (· != 40)
@@ -406,13 +412,21 @@ def typedPost (c : Ctx) (key val : Bytes) : Out Ctx :=
       | some tn =>
         let isSym := tn == "SYMBOL"
         let (num, rest) := strtou (if isSym then 16 else 0) val
-        if rest ≠ [] then .done .ok c
+        let path := ty ++ [46] ++ sym
+        if rest ≠ [] then
+          -- invalid format: the line is ignored, but a leaf of the same type with this path
+          -- (`lookup_dir_attr`; a directory does not match) is cleared: its value came from an
+          -- earlier line with the same key
+          match c.typed.find path with
+          | some t =>
+            if t.addr = isSym then .done .ok { c with typed := c.typed.put path { t with set := false } }
+            else .done .ok c
+          | none => .done .ok c
         else
-          let path := ty ++ [46] ++ sym
           match slotOf c.typed path with
           | .blocked => .done .system c
           | .dir => .done .invalid c
-          | _ => .done .ok (addInst { c with typed := c.typed.put path ⟨isSym, num⟩ } tn)
+          | _ => .done .ok (addInst { c with typed := c.typed.put path ⟨isSym, num, true⟩ } tn)
 
 /-- `lines_post_hook` for the Linux directory -/
 def linesPost (c : Ctx) (key val : Bytes) : Out Ctx :=
@@ -466,7 +480,7 @@ def vsym (c : Ctx) (k : Bytes) : Status × Nat :=
   if !c.inst.contains "SYMBOL" then (.nodata, 0)
   else if leadingDot k then (.nodata, 0)
   else match c.typed.find (bytesOf "SYMBOL." ++ k) with
-    | some t => if t.addr then (.ok, t.val) else (.nodata, 0)
+    | some t => if t.addr && t.set then (.ok, t.val) else (.nodata, 0)
     | none => (.nodata, 0)
 
 /-- `kdump_vmcoreinfo_raw` -/
